@@ -1518,7 +1518,10 @@ func (ex *Exec) selectOp(st *State, x *ssa.Select) []*State {
 		} else {
 			// receive: ready (for ghost-tracked channels: non-empty)
 			s.assume(App("chanReady", SBool, ch.T, cur))
-			ex.set(s, "Chlen", Store(ln, ch.T, Ite(Gt(cur, IntLit(0, SInt)), Sub(cur, IntLit(1, SInt)), cur)))
+			if !(ch.T.Op == "app" && ch.T.Name == "doneChan") {
+				// (a context's Done channel is only ever closed: receiving does not change any occupancy)
+				ex.set(s, "Chlen", Store(ln, ch.T, Ite(Gt(cur, IntLit(0, SInt)), Sub(cur, IntLit(1, SInt)), cur)))
+			}
 		}
 		s.path += fmt.Sprintf("s%d", i)
 		s.notes = append(s.notes, fmt.Sprintf("select:%s#%d", instrLabel(x.Parent(), x), i))
